@@ -19,14 +19,25 @@ TPERIODS = ["0", "0.05", "0.1", "0.125", "0.15", "0.2", "0.25", "0.3", "0.35", "
 RUNNING_OR_STARTED = (2, 3)  # resolved from ioflo at run time
 
 
+def _side(g):
+    """A side generator seeded by the main generator's state without drawing from it (keeps older programs unchanged)."""
+    import random as _random
+    return _random.Random(int(hashlib.sha256(repr(g.getstate()).encode()).hexdigest()[:16], 16))
+
+
 def gen_program(g):
-    P = g.choice(PERIODS)
+    slow = _side(g).random() < 0.2     # every tasker, the director included, has a period of at least two ticks: whole ticks pass
+    P = g.choice(PERIODS)               # in which nothing is due (an implementation that skips idle ticks must land on the same ticks)
     nt = g.randint(1, 6)
     framers = []
     ticks = g.randint(4, 60)
     names = ["t%d" % i for i in range(nt)]
+    tperiods = TPERIODS
+    if slow:
+        from flosim.gen import dec
+        tperiods = sorted(set([p for p in TPERIODS if Fraction(p) >= 2 * Fraction(P)] + [dec(k * Fraction(P)) for k in (2, 2, 3, 4, 5)]))
     for i, nm in enumerate(names):
-        p = g.choice(TPERIODS) if g.random() < 0.8 else P
+        p = g.choice(tperiods) if g.random() < 0.8 or slow else P
         frames = [{"name": nm + "s", "over": None, "acts": [{"k": "rec", "ctx": "recur", "tag": "run." + nm}]}]
         if g.random() < 0.2:   # self aborting / stopping tasker: a chain of frames ending in a bid on itself
             k = g.randint(1, 4)
@@ -41,7 +52,7 @@ def gen_program(g):
     dframes = []
     bids = {}
     for _ in range(g.randint(0, 4)):
-        bids.setdefault(g.randint(0, ticks - 1), []).append((g.choice(["start", "start", "run", "stop", "abort", "ready"]), g.choice(names), g.choice(TPERIODS + [None, None])))
+        bids.setdefault(g.randint(0, ticks - 1), []).append((g.choice(["start", "start", "run", "stop", "abort", "ready"]), g.choice(names), g.choice(tperiods + [None, None])))
     for n in range(ticks):
         acts = []
         for control, who, p in bids.get(n, []):
@@ -52,6 +63,12 @@ def gen_program(g):
         dframes.append({"name": "d%d" % n, "over": None, "acts": acts})
     dframes.append({"name": "dend", "over": None, "acts": [{"k": "bid", "ctx": "enter", "control": "stop", "who": ["all"]}]})
     director = {"name": "dir", "sched": "active", "order": g.choice(["front", "back", None]), "period": None, "pdec": "0", "first": "d0", "frames": dframes}
+    if slow:
+        from flosim.gen import dec
+        k = _side(g).choice([2, 2, 3])
+        director["pdec"] = dec(k * Fraction(P))
+        director["period"] = float(director["pdec"])
+        del dframes[max(2, len(dframes) // k):-1]      # the director advances one frame per run of its own: keep the run length comparable
     pos = g.randint(0, len(framers))
     framers.insert(pos, director)
     return {"P": P, "program": {"house": "h", "framers": framers}}
@@ -72,7 +89,7 @@ class C02(Check):
                   "stub": ["script file (served from memory)", "Rec action, probe runner (harness)"]}
     assumptions = ["'tick time' is n*P in exact arithmetic from the decimal literals; a last-bit difference in a reported stamp is not a violation, "
                    "a run happening in a different tick is"]
-    required_probes = ["period-multiple", "period-nonmultiple", "decimal-period", "period-bid", "aborted", "skipped-tick"]
+    required_probes = ["period-multiple", "period-nonmultiple", "decimal-period", "period-bid", "aborted", "skipped-tick", "idle-tick"]
     quick_runs = 6000
     thorough_runs = 300000
     shrink_fields = []
@@ -147,12 +164,14 @@ class C02(Check):
         while not ended and tick < maxticks:
             now = tick * P
             more = False
+            idle = bool(ready)
             for name in list(ready):
                 if due[name] > now:
                     if status[name] in (STARTED, RUNNING):
                         more = True
                     out.probe("skipped-tick")
                     continue
+                idle = False
                 e = take_sends_until(name)
                 if e is None:
                     violation = ("missing-run", "tick %d (t=%s): %s is due (due %s, period %s) but the trace ends" % (tick, now, name, due[name], period[name]))
@@ -173,6 +192,8 @@ class C02(Check):
                         more = True
             if violation:
                 break
+            if idle:
+                out.probe("idle-tick")      # a whole tick in which no tasker was due
             if not ready or not more:
                 ended = True
                 break
